@@ -37,3 +37,18 @@ corpus, run, shrink, replay = make(
     lambda res, r: solvers.judge_optimal(res, r, ID),
     quick=700, thorough=6000, corpus_cases=CORPUS, known_algos=["superdtl"],
 )
+
+
+from . import c03_code  # noqa: E402
+
+TRUSTED = list(globals().get("TRUSTED", [])) + [
+    "lean/SRVerif/Model/UspfsCode.lean (code-structured model of _compute_uspfs_table / _decode_uspfs_table; proved to "
+    "return the same set as Solvers.uspfs in Properties/C03Code.lean; tied cell by cell — values and tag sets at every "
+    "(object, species, kind) — to the real table by checks/c03_code.py)",
+]
+_run_main = run
+
+
+def run(ctx, res):
+    _run_main(ctx, res)
+    c03_code.run_code(ctx, res)
